@@ -21,14 +21,28 @@ def build_replay():
     env = dict(os.environ, CARGO_NET_OFFLINE='true', RUSTUP_TOOLCHAIN='1.83.0')
     out = {}
     procs = {}
+    crate, tbase = os.path.join(VERIF, 'replay'), os.path.join(VERIF, '.cache', 'replay-target-')
+    if os.path.realpath(REPO) != '/repo':
+        # development aid (seed runs against scratch worktrees in parallel): a private copy of the replay crate whose
+        # path dependency points at VERIF_REPO, with its own target directories. Registered commands never take this path.
+        import shutil
+        crate = os.path.join('/tmp', 'verif-replay-' + hashlib.sha256(os.path.realpath(REPO).encode()).hexdigest()[:10])
+        os.makedirs(crate, exist_ok=True)
+        shutil.copytree(os.path.join(VERIF, 'replay', 'src'), os.path.join(crate, 'src'), dirs_exist_ok=True)
+        for f in ('Cargo.lock', '.cargo'):
+            src = os.path.join(VERIF, 'replay', f)
+            if os.path.isdir(src): shutil.copytree(src, os.path.join(crate, f), dirs_exist_ok=True)
+            elif os.path.exists(src): shutil.copy(src, os.path.join(crate, f))
+        open(os.path.join(crate, 'Cargo.toml'), 'w').write(open(os.path.join(VERIF, 'replay', 'Cargo.toml')).read().replace('path = "/repo"', 'path = "%s"' % os.path.realpath(REPO)))
+        tbase = os.path.join(crate, 'target-')
     for prof, flag in (('debug', []), ('release', ['--release'])):
-        procs[prof] = subprocess.Popen(['cargo', 'build', '--offline', '--features', 'hooks', '--target-dir', os.path.join(VERIF, '.cache', 'replay-target-' + prof)] + flag,
-                                       cwd=os.path.join(VERIF, 'replay'), env=env, stdout=subprocess.PIPE, stderr=subprocess.STDOUT, text=True)
+        procs[prof] = subprocess.Popen(['cargo', 'build', '--offline', '--features', 'hooks', '--target-dir', tbase + prof] + flag,
+                                       cwd=crate, env=env, stdout=subprocess.PIPE, stderr=subprocess.STDOUT, text=True)
     for prof, p in procs.items():
         o, _ = p.communicate()
         if p.returncode != 0:
             return None, 'replay build (%s) failed:\n%s' % (prof, o[-3000:])
-        out[prof] = os.path.join(VERIF, '.cache', 'replay-target-' + prof, prof, 'verif_replay')
+        out[prof] = os.path.join(tbase + prof, prof, 'verif_replay')
     return out, None
 
 
@@ -169,6 +183,8 @@ def main():
     rb.close()
     if err:
         log('[%s] INCONCLUSIVE: %s' % (pid, err)); inconclusive_reasons.append(err[:500])
+    else:
+        os.environ['VERIF_REPLAY_DEBUG'] = bins['debug']
 
     specs = props.jobs_for(pid, tier, seed)
     if args.only: specs = [s for s in specs if args.only in s['id']]
